@@ -156,6 +156,8 @@ def run(ctx: Ctx):
     import secsgem.secs.data_items as di
     classes = [c for _n, c in inspect.getmembers(di, inspect.isclass)
                if getattr(c, "__allowedtypes__", None) and len(c.__allowedtypes__) > 1 and issubclass(c, var.Dynamic)]
+    text_classes = [c for _n, c in inspect.getmembers(di, inspect.isclass)
+                    if c.__module__.startswith("secsgem.secs.data_items") and (issubclass(c, var.String) or (issubclass(c, var.Dynamic) and var.String in (getattr(c, "__allowedtypes__", None) or [])))]
     samples = {"L": bytes([0x01, 0x02, 0xA5, 0x01, 0x05, 0x41, 0x01, 0x78]), "A": b"\x41\x01a", "B": b"\x21\x01\x07", "BOOLEAN": b"\x25\x01\x01",
                "U1": b"\xa5\x01\x05", "U2": b"\xa9\x02\x01\x02", "U4": b"\xb1\x04\x00\x00\x00\x09", "U8": b"\xa1\x08" + bytes(8),
                "I1": b"\x65\x01\xff", "I2": b"\x69\x02\xff\xfe", "I4": b"\x71\x04" + bytes(4), "I8": b"\x61\x08" + bytes(8),
@@ -190,6 +192,32 @@ def run(ctx: Ctx):
             if pos != len(data) or again != data:
                 ctx.violation({"check": "data-item-allowed-format", "item": c.__name__, "fmt": nm, "got": again.hex(),
                                "what": f"data item {c.__name__} decodes the valid {nm} item {data.hex()} to {again.hex()}"})
+    # text in a length-limited data item is the bytes that were sent: blanks and NUL characters at its end belong to it
+    ntx = 0
+    for c in text_classes:
+        try:
+            limit = getattr(c(), "count", -1)
+        except Exception:  # noqa: BLE001
+            continue
+        for txt in (b"a", b" ", b"\x00", b"a ", b"a\x00", b" a", b"ab  ", b"a \x00"):
+            if limit not in (-1, None) and len(txt) > limit:
+                continue
+            data = bytes([0x41, len(txt)]) + txt
+            ntx += 1
+            try:
+                o = c()
+                pos = o.decode(data + GARBAGE, 0)
+                again = bytes(o.encode())
+            except Exception as exc:  # noqa: BLE001
+                ctx.violation({"check": "data-item-text", "item": c.__name__, "text": txt.hex(), "error": type(exc).__name__,
+                               "what": f"data item {c.__name__} (text, limit {limit}) rejects the valid item {data.hex()}: {exc!r}"})
+                continue
+            if pos != len(data) or again != data:
+                ctx.violation({"check": "data-item-text", "item": c.__name__, "text": txt.hex(), "got": again.hex(),
+                               "what": f"data item {c.__name__} (text, limit {limit}) decodes the valid item {data.hex()} ({txt!r}) to {again.hex()}"})
+    ctx.extra["data_item_text_samples"] = ntx
+    if ntx < 50:
+        raise Machinery(f"too few text data items found: {ntx}")
     ctx.extra["data_item_format_pairs"] = ndi
     ctx.evaluations += 2 * len(nlb) + len(vec)
     ctx.nontrivial += 2 * len(nlb)
